@@ -52,9 +52,22 @@ func scenC02(e *Env) func() {
 		MaxBody:    Pick(e, 0, 0, 30000, 9000),
 		Hook:       Pick(e, "none", "continue", "expect", "continue"),
 		ExpectCode: Pick(e, 417, 413, 401),
-		ReduceMem:  e.Chance(25),
+		ReduceMem:  e.Chance(35),
 		ReadBuf:    Pick(e, 4096, 4096, 1024, 16384),
 	}
+	// the mix is a per-run draw too (swarm): some runs use one or two body-reading programs
+	// for every message, only chunked or only fixed-length bodies, no expectations at all -
+	// combinations that independent per-message draws almost never line up
+	readModes := []string{"all", "none", "none", "1", "100", "8192", "postbody", "all", "reset", "resetbody", "setbody", "100+close", "1+close+close", "100+close+setbody", "8192+close+reset"}
+	if e.Chance(40) {
+		sub := []string{readModes[e.Int(len(readModes))]}
+		if e.Bool() {
+			sub = append(sub, readModes[e.Int(len(readModes))])
+		}
+		readModes = sub
+	}
+	chunkedPct := Pick(e, 35, 35, 0, 100)
+	expectPct := Pick(e, 60, 60, 0)
 	sizes := []int{0, 10, 300, 4096, 8191, 8192, 8193, 9000, 12000, 17000}
 	if e.Thorough() {
 		sizes = append(sizes, 40000, 70000)
@@ -78,10 +91,10 @@ func scenC02(e *Env) func() {
 				m.Target = fmt.Sprintf("/canary-%d", ci)
 			} else {
 				m.BodyLen = sizes[e.Int(len(sizes))]
-				m.Chunked = e.Chance(35)
-				m.Read = Pick(e, "all", "none", "none", "1", "100", "8192", "postbody", "all", "reset", "resetbody", "setbody", "100+close", "1+close+close", "100+close+setbody", "8192+close+reset")
+				m.Chunked = e.Chance(chunkedPct)
+				m.Read = readModes[e.Int(len(readModes))]
 				m.Resp = Pick(e, "", "", "", "", "", "timeout", "timeout-resp")
-				if p.Hook != "none" && e.Chance(60) {
+				if p.Hook != "none" && e.Chance(expectPct) {
 					m.Expect = true
 					m.Reject = e.Chance(50)
 					m.WaitMs = Pick(e, 0, 0, 1000)
